@@ -177,12 +177,21 @@ func c14Eval(c c14Case) string {
 			srv.Put(d, utils.CheckpointKey, e)
 		}
 	}
+	// LoadCheckpoint does not close the connection it opens: cut it afterwards so that the model
+	// server's goroutine ends
+	var opened []*memconn.Conn
 	hook.SetDialHook(func(network, addr string) (net.Conn, error, bool) {
 		cc, sc := memconn.Pair("target")
+		opened = append(opened, sc)
 		go srv.Serve(sc)
 		return cc, nil, true
 	})
-	defer hook.SetDialHook(nil)
+	defer func() {
+		hook.SetDialHook(nil)
+		for _, sc := range opened {
+			sc.Cut()
+		}
+	}()
 	var runid string
 	var offset int64
 	var db int
